@@ -601,6 +601,9 @@ func (x *Exec) evalCall(c *evalCtx, call ECall) (Val, error) {
 			v.Parts = append(v.Parts, fields[f.Name()])
 		}
 		return v, nil
+	case "now":
+		// now(k): k-th clock reading of the call; now(last): last reading (the argument is not an expression)
+		return x.evalNow(c, call)
 	case "ite":
 		a, err := x.evalArgs(c, call.Args)
 		if err != nil {
